@@ -273,6 +273,35 @@ func flowsFrom(v, e ssa.Value, depth int) bool {
 			if k == "fmt.Errorf" || k == "errors.New" {
 				return true
 			}
+			// an error-wrapping helper of the repository (readError(field, err)): every
+			// return is a certainly non-nil error, or hands back an argument that flows from e
+			if inRepo(f) && len(f.Blocks) > 0 && depth < 4 {
+				all, n := true, 0
+				for _, r := range core.Returns(f) {
+					if len(r.Results) != 1 {
+						all = false
+						break
+					}
+					n++
+					if errorReturnConst(r) {
+						continue
+					}
+					ok := false
+					if p, isParam := core.Canon(core.RetVal(r, 0)).(*ssa.Parameter); isParam {
+						for i, fp := range f.Params {
+							if fp == p && i < len(x.Call.Args) && flowsFrom(x.Call.Args[i], e, depth+1) {
+								ok = true
+							}
+						}
+					}
+					if !ok {
+						all = false
+					}
+				}
+				if all && n > 0 {
+					return true
+				}
+			}
 		}
 	case *ssa.UnOp:
 		if x.Op == token.MUL {
